@@ -1,4 +1,5 @@
 import AsyncFix.Model.Restart
+import AsyncFix.Lemmas.SessionRel
 
 /-!
 Laws of the handler monad `M` (`Conn → Out α`): it is a lawful monad, and pointwise unfolding lemmas for
@@ -37,42 +38,19 @@ instance : LawfulMonad M := LawfulMonad.mk'
         rcases h3 : g b c2 with ⟨r3, c3, e3⟩
         simp [List.append_assoc])
 
-/-! ### pointwise unfolding -/
-
-theorem M.bind_apply {α β} (x : M α) (f : α → M β) (c : Conn) :
-    (x >>= f) c = match x c with
-      | ⟨.ok a, c1, e1⟩ => ⟨(f a c1).res, (f a c1).conn, e1 ++ (f a c1).eff⟩
-      | ⟨.error ex, c1, e1⟩ => ⟨.error ex, c1, e1⟩ := by
-  show M.bind' x f c = _
-  unfold M.bind'
-  rcases x c with ⟨r, c1, e1⟩
-  cases r <;> rfl
-
-theorem M.bind_apply_ok {α β} {x : M α} {f : α → M β} {c c1 : Conn} {a : α} {e1 : List Effect}
-    (h : x c = ⟨.ok a, c1, e1⟩) : (x >>= f) c = ⟨(f a c1).res, (f a c1).conn, e1 ++ (f a c1).eff⟩ := by
-  rw [M.bind_apply, h]
-
-theorem M.bind_apply_error {α β} {x : M α} {f : α → M β} {c c1 : Conn} {ex : Exc} {e1 : List Effect}
-    (h : x c = ⟨.error ex, c1, e1⟩) : (x >>= f) c = ⟨.error ex, c1, e1⟩ := by
-  rw [M.bind_apply, h]
-
-@[simp] theorem M.pure_apply {α} (a : α) (c : Conn) : (pure a : M α) c = ⟨.ok a, c, []⟩ := rfl
-@[simp] theorem M.throw_apply {α} (ex : Exc) (c : Conn) : (M.throw ex : M α) c = ⟨.error ex, c, []⟩ := rfl
-@[simp] theorem M.get_apply (c : Conn) : M.get c = ⟨.ok c, c, []⟩ := rfl
-@[simp] theorem M.modify_apply (f : Conn → Conn) (c : Conn) : M.modify f c = ⟨.ok (), f c, []⟩ := rfl
-@[simp] theorem M.emit_apply (e : Effect) (c : Conn) : M.emit e c = ⟨.ok (), c, [e]⟩ := rfl
+/-! ### pointwise unfolding (the basic lemmas are in `Lemmas/SessionRel.lean`) -/
 
 @[simp] theorem M.get_bind_apply {β} (f : Conn → M β) (c : Conn) : (M.get >>= f) c = f c c := by
-  rw [M.bind_apply]; simp
+  rw [M.bind_ok (M.get_apply c)]; simp
 @[simp] theorem M.throw_bind_apply {α β} (ex : Exc) (f : α → M β) (c : Conn) :
     ((M.throw ex : M α) >>= f) c = ⟨.error ex, c, []⟩ := by
-  rw [M.bind_apply]; simp
+  rw [M.bind_err (M.throw_apply ex c)]
 @[simp] theorem M.modify_bind_apply {β} (g : Conn → Conn) (f : Unit → M β) (c : Conn) :
     (M.modify g >>= f) c = f () (g c) := by
-  rw [M.bind_apply]; simp
+  rw [M.bind_ok (M.modify_apply g c)]; simp
 @[simp] theorem M.emit_bind_apply {β} (e : Effect) (f : Unit → M β) (c : Conn) :
     (M.emit e >>= f) c = ⟨(f () c).res, (f () c).conn, e :: (f () c).eff⟩ := by
-  rw [M.bind_apply]; simp
+  rw [M.bind_ok (M.emit_apply e c)]; simp
 
 theorem M.ite_bind {α β} (b : Prop) [Decidable b] (x y : M α) (f : α → M β) :
     ((if b then x else y) >>= f) = if b then x >>= f else y >>= f := by
